@@ -44,6 +44,96 @@ CLAIMS = {
          "pause-after-store schedules."),
    note="Trusted: as C17 plus CPython GIL atomicity of bytecodes and thread-safety of the C externals; schedules sampled only.",
    technique="frame / non-interference obligations by provenance analysis; deterministic schedule replay as bounded stand-in"),
+ "C04": dict(cat="exploration", design="7/C04",
+   text=("Bounded stand-in only (labelled bounded, nothing counted as proved): container round trip against NORM; self-description (canonical form, codec, metadata); block-size independence; read-only sequential input; write-only non-seekable output. "
+         "Deductive contracts for the functions this property is anchored in are not yet discharged in this version; "
+         "the level claimed is therefore exploration."),
+   note="Oracles: executable spec library under /verif/spec (written from the Avro specification and the property text); stdlib codecs, json, hashlib trusted; enumeration bounds are in the evidence file.",
+   technique="bounded run-time checking against executable specification functions (stand-in for contracts not yet discharged)"),
+ "C05": dict(cat="exploration", design="7/C05",
+   text=("Bounded stand-in only (labelled bounded, nothing counted as proved): files written by fastavro parsed by an independent layout parser; files built by an independent writer (any partition, empty blocks, chunked header map, codec key absent) read by reader and block_reader; block tiling; is_avro on byte strings; Java fixtures. "
+         "Deductive contracts for the functions this property is anchored in are not yet discharged in this version; "
+         "the level claimed is therefore exploration."),
+   note="Oracles: executable spec library under /verif/spec (written from the Avro specification and the property text); stdlib codecs, json, hashlib trusted; enumeration bounds are in the evidence file.",
+   technique="bounded run-time checking against executable specification functions (stand-in for contracts not yet discharged)"),
+ "C06": dict(cat="exploration", design="7/C06",
+   text=("Bounded stand-in only (labelled bounded, nothing counted as proved): every cut offset of enumerated files under all four local codecs; single-bit alterations of every sync marker. "
+         "Deductive contracts for the functions this property is anchored in are not yet discharged in this version; "
+         "the level claimed is therefore exploration."),
+   note="Oracles: executable spec library under /verif/spec (written from the Avro specification and the property text); stdlib codecs, json, hashlib trusted; enumeration bounds are in the evidence file.",
+   technique="bounded run-time checking against executable specification functions (stand-in for contracts not yet discharged)"),
+ "C07": dict(cat="exploration", design="7/C07",
+   text=("Bounded stand-in only (labelled bounded, nothing counted as proved): random histories over write / large write / failing write / flush / write_block from donor files / reopen for append with arbitrary arguments; header frozen. "
+         "Deductive contracts for the functions this property is anchored in are not yet discharged in this version; "
+         "the level claimed is therefore exploration."),
+   note="Oracles: executable spec library under /verif/spec (written from the Avro specification and the property text); stdlib codecs, json, hashlib trusted; enumeration bounds are in the evidence file.",
+   technique="bounded run-time checking against executable specification functions (stand-in for contracts not yet discharged)"),
+ "C08": dict(cat="exploration", design="7/C08",
+   text=("Bounded stand-in only (labelled bounded, nothing counted as proved): reader schemas derived from writer schemas by single evolution steps at every position, against the resolution oracle. "
+         "Deductive contracts for the functions this property is anchored in are not yet discharged in this version; "
+         "the level claimed is therefore exploration."),
+   note="Oracles: executable spec library under /verif/spec (written from the Avro specification and the property text); stdlib codecs, json, hashlib trusted; enumeration bounds are in the evidence file.",
+   technique="bounded run-time checking against executable specification functions (stand-in for contracts not yet discharged)"),
+ "C09": dict(cat="exploration", design="7/C09",
+   text=("Bounded stand-in only (labelled bounded, nothing counted as proved): writer's branch index against the selection oracle with and without hints; closure under read-with-names / rewrite. "
+         "Deductive contracts for the functions this property is anchored in are not yet discharged in this version; "
+         "the level claimed is therefore exploration."),
+   note="Oracles: executable spec library under /verif/spec (written from the Avro specification and the property text); stdlib codecs, json, hashlib trusted; enumeration bounds are in the evidence file.",
+   technique="bounded run-time checking against executable specification functions (stand-in for contracts not yet discharged)"),
+ "C10": dict(cat="exploration", design="7/C10",
+   text=("Bounded stand-in only (labelled bounded, nothing counted as proved): validate against CONFORMS on conforming and singly-mutated data x raise_errors x strict x tuple notation; writer agreement and validation gate. "
+         "Deductive contracts for the functions this property is anchored in are not yet discharged in this version; "
+         "the level claimed is therefore exploration."),
+   note="Oracles: executable spec library under /verif/spec (written from the Avro specification and the property text); stdlib codecs, json, hashlib trusted; enumeration bounds are in the evidence file.",
+   technique="bounded run-time checking against executable specification functions (stand-in for contracts not yet discharged)"),
+ "C11": dict(cat="exploration", design="7/C11",
+   text=("Bounded stand-in only (labelled bounded, nothing counted as proved): parse_schema against the spec parser on valid schemas; every listed kind of ill-forming mutation at every position. "
+         "Deductive contracts for the functions this property is anchored in are not yet discharged in this version; "
+         "the level claimed is therefore exploration."),
+   note="Oracles: executable spec library under /verif/spec (written from the Avro specification and the property text); stdlib codecs, json, hashlib trusted; enumeration bounds are in the evidence file.",
+   technique="bounded run-time checking against executable specification functions (stand-in for contracts not yet discharged)"),
+ "C12": dict(cat="exploration", design="7/C12",
+   text=("Bounded stand-in only (labelled bounded, nothing counted as proved): idempotence; raw / parsed / piecewise-parsed forms across binary, container, JSON, validate, canonical form, generate. "
+         "Deductive contracts for the functions this property is anchored in are not yet discharged in this version; "
+         "the level claimed is therefore exploration."),
+   note="Oracles: executable spec library under /verif/spec (written from the Avro specification and the property text); stdlib codecs, json, hashlib trusted; enumeration bounds are in the evidence file.",
+   technique="bounded run-time checking against executable specification functions (stand-in for contracts not yet discharged)"),
+ "C13": dict(cat="exploration", design="7/C13",
+   text=("Bounded stand-in only (labelled bounded, nothing counted as proved): canonical form against the spec transformation; fixed point; same encoding; cosmetic rewrites. "
+         "Deductive contracts for the functions this property is anchored in are not yet discharged in this version; "
+         "the level claimed is therefore exploration."),
+   note="Oracles: executable spec library under /verif/spec (written from the Avro specification and the property text); stdlib codecs, json, hashlib trusted; enumeration bounds are in the evidence file.",
+   technique="bounded run-time checking against executable specification functions (stand-in for contracts not yet discharged)"),
+ "C14": dict(cat="exploration", design="7/C14",
+   text=("Bounded stand-in only (labelled bounded, nothing counted as proved): CRC-64-AVRO against bitwise polynomial division on generated texts; every fixed-length hashlib algorithm and the Java names; unknown names. "
+         "Deductive contracts for the functions this property is anchored in are not yet discharged in this version; "
+         "the level claimed is therefore exploration."),
+   note="Oracles: executable spec library under /verif/spec (written from the Avro specification and the property text); stdlib codecs, json, hashlib trusted; enumeration bounds are in the evidence file.",
+   technique="bounded run-time checking against executable specification functions (stand-in for contracts not yet discharged)"),
+ "C15": dict(cat="exploration", design="7/C15",
+   text=("Bounded stand-in only (labelled bounded, nothing counted as proved): JSON text against the spec's JSON encoding; JSON round trip; agreement with binary; absent keys take defaults. "
+         "Deductive contracts for the functions this property is anchored in are not yet discharged in this version; "
+         "the level claimed is therefore exploration."),
+   note="Oracles: executable spec library under /verif/spec (written from the Avro specification and the property text); stdlib codecs, json, hashlib trusted; enumeration bounds are in the evidence file.",
+   technique="bounded run-time checking against executable specification functions (stand-in for contracts not yet discharged)"),
+ "C16": dict(cat="exploration", design="7/C16",
+   text=("Bounded stand-in only (labelled bounded, nothing counted as proved): dates, times, timestamps (aware with offsets, local), uuid, bytes- and fixed-decimals against independent arithmetic over boundary and random values. "
+         "Deductive contracts for the functions this property is anchored in are not yet discharged in this version; "
+         "the level claimed is therefore exploration."),
+   note="Oracles: executable spec library under /verif/spec (written from the Avro specification and the property text); stdlib codecs, json, hashlib trusted; enumeration bounds are in the evidence file.",
+   technique="bounded run-time checking against executable specification functions (stand-in for contracts not yet discharged)"),
+ "C19": dict(cat="exploration", design="7/C19",
+   text=("Bounded stand-in only (labelled bounded, nothing counted as proved): dependency graphs written one type per file; equality with the inlined schema (canonical form and encodings); load_schema_ordered; every needed file missing. "
+         "Deductive contracts for the functions this property is anchored in are not yet discharged in this version; "
+         "the level claimed is therefore exploration."),
+   note="Oracles: executable spec library under /verif/spec (written from the Avro specification and the property text); stdlib codecs, json, hashlib trusted; enumeration bounds are in the evidence file.",
+   technique="bounded run-time checking against executable specification functions (stand-in for contracts not yet discharged)"),
+ "C20": dict(cat="exploration", design="7/C20",
+   text=("Bounded stand-in only (labelled bounded, nothing counted as proved): counts, validation, binary and container round trip of generated values over seeded random states. "
+         "Deductive contracts for the functions this property is anchored in are not yet discharged in this version; "
+         "the level claimed is therefore exploration."),
+   note="Oracles: executable spec library under /verif/spec (written from the Avro specification and the property text); stdlib codecs, json, hashlib trusted; enumeration bounds are in the evidence file.",
+   technique="bounded run-time checking against executable specification functions (stand-in for contracts not yet discharged)"),
 }
 
 PENDING = ["C04", "C05", "C06", "C07", "C08", "C09", "C10", "C11", "C12", "C13", "C14", "C15", "C16", "C17", "C18", "C19", "C20"]
